@@ -46,7 +46,7 @@ theorem C09_selected_case_has_returned_label (P : Program) (s : St) (n : Node) (
 /-- `_run_switch` records the selection and runs the sub-DAG input → selected case, inline -/
 theorem C09_selects_case_of_returned_label (c : Ctx) (s : St) (obs : List Obs) (d : DagRef) (n : Node)
     (below : List Frame) (l : Label) (cn : Node) (sub : DagRef) (h : switchSelect c.P s n = some (l, cn))
-    (hr : reducedRef c.P (openCand (s.setSw n (l, cn)) d.isOneof cn) c.P.g.input cn false d.isOneof false = some sub) :
+    (hr : reducedRef c.P (openCand (s.setSw n (l, cn)) d.isOneof cn) c.P.g.input cn false d.isOneof d.isNested = some sub) :
     switchStart c s obs d n below =
       dagInit c (openCand (s.setSw n (l, cn)) d.isOneof cn) obs sub (.switchRet d n :: below) := by
   simp [switchStart, h, hr]
@@ -54,9 +54,31 @@ theorem C09_selects_case_of_returned_label (c : Ctx) (s : St) (obs : List Obs) (
 /-- a label that matches no case: `run()` is woken and the switch task ends with `SwitchNoCase` — no case is
 selected, nothing is launched -/
 theorem C09_unknown_label_fails (c : Ctx) (s : St) (obs : List Obs) (d : DagRef) (n : Node) (below : List Frame)
-    (h : switchSelect c.P s n = none) :
+    (h : switchSelect c.P s n = none) (hd : d.isOneof = false) (hl : (switchLabel c.P s n).isExc = false) :
     switchStart c s obs d n below = raiseOut c (notify s .run) obs below (.exc ⟨"SwitchNoCase", n, 0, 0⟩) := by
-  simp [switchStart, h]
+  have : switchError c.P s n = ⟨"SwitchNoCase", n, 0, 0⟩ := by
+    unfold switchError; split
+    · next x hx => rw [hx] at hl; cases hl
+    · rfl
+  simp [switchStart, h, hd, this]
+
+/-- a decision node that failed inside a one-of scope has its exception as result: the switch fails with that error, not
+with a `SwitchDoesNotHaveCaseError` about an exception object -/
+theorem C09_failed_decision_is_not_a_label (c : Ctx) (s : St) (obs : List Obs) (d : DagRef) (n : Node)
+    (below : List Frame) (x : Exc) (hl : switchLabel c.P s n = .exc x) (hd : d.isOneof = false) :
+    switchStart c s obs d n below = raiseOut c (notify s .run) obs below (.exc x) := by
+  have h : switchSelect c.P s n = none := by unfold switchSelect; rw [hl]
+  have : switchError c.P s n = x := by unfold switchError; rw [hl]
+  simp [switchStart, h, hd, this]
+
+/-- … inside a one-of scope the error is kept as the result of the switch node (the candidate fails, not the run): no
+case is selected, nothing is launched, the waiters of the switch node and of its consumers are woken -/
+theorem C09_unknown_label_fails_the_candidate (c : Ctx) (s : St) (obs : List Obs) (d : DagRef) (n : Node)
+    (below : List Frame) (h : switchSelect c.P s n = none) (hd : d.isOneof = true) :
+    switchStart c s obs d n below =
+      retTo c (notifyAll (notify (s.setRes n (.exc (switchError c.P s n))) (.node n)) ((c.P.g.desc1 n).map Key.node))
+        obs below .none := by
+  simp [switchStart, h, hd]
 
 /-- a label that is not a string, or a string no case declares, selects nothing -/
 theorem C09_no_case_no_selection (P : Program) (s : St) (n : Node)
